@@ -101,6 +101,13 @@ Definition enc_fields (fs : list field) : list N := concat (map enc_field fs).
 Definition layout (thr : Z) (len : N) : N :=
   if 0 <=? thr then (if Z.of_N len <? thr then 1%N else 2%N) else 0%N.
 
+(* the two tests the gate makes on thresholds, named so that proofs can keep them folded:
+   thr_eq  = "the receiver's net.Conn holds the threshold the frame was packed with",
+   compress_on = `d.Threshold >= 0` in AcceptLogin *)
+Definition thr_eq (a b : Z) : bool := a =? b.
+Definition compress_on (t : Z) : bool := 0 <=? t.
+Definition long_eq (a b : Z) : bool := a =? b.      (* `t != pk.Long(startTime.Unix())` in pingAndList *)
+
 (* a VarInt scanned from a field: pk.Byte(1) written by pingAndList is read back as VarInt 1 *)
 Definition scan_varint (f : field) : option Z :=
   match f with
@@ -300,7 +307,7 @@ Definition bot_config (c : bcfg) (b : bot) (f : frame) : bot :=
 
 (* conn.ReadPacket under the local threshold, then the handler *)
 Definition b_recv (b : bot) (h : bot -> frame -> bot) (f : frame) : bot :=
-  if f_thr f =? b_thr b then h b f else b_set b (BFailed stDecode).
+  if thr_eq (f_thr f) (b_thr b) then h b f else b_set b (BFailed stDecode).
 
 Definition bot_act (c : bcfg) (b : bot) : action bot :=
   match b_ph b with
@@ -316,7 +323,7 @@ Definition bot_act (c : bcfg) (b : bot) : action bot :=
   | BStatusPong s t =>
       ARecv (b_recv b (fun b f =>
         match f_fields f with
-        | FLong t' :: _ => if t' =? t then b_set b (BStatusDone s) else b_set b (BFailed stPong)
+        | FLong t' :: _ => if long_eq t' t then b_set b (BStatusDone s) else b_set b (BFailed stPong)
         | _ => b_set b (BFailed stStatusScan)
         end))
   | _ => AHalt
@@ -372,7 +379,7 @@ Record srv := { s_ph : sphase; s_thr : Z; s_proto : Z; s_name : list N; s_uuid :
 Definition s_set (s : srv) (ph : sphase) : srv :=
   {| s_ph := ph; s_thr := s_thr s; s_proto := s_proto s; s_name := s_name s; s_uuid := s_uuid s |}.
 Definition s_recv (s : srv) (h : srv -> frame -> srv) (f : frame) : srv :=
-  if f_thr f =? s_thr s then h s f else s_set s (SClosed scDecode).
+  if thr_eq (f_thr f) (s_thr s) then h s f else s_set s (SClosed scDecode).
 
 Section Server.
 Variable offline_uuid : list N -> list N.        (* offline.NameToUUID: MD5 with version bits, uninterpreted *)
@@ -416,7 +423,7 @@ Definition srv_login_start (c : scfg) (s : srv) (f : frame) : srv :=
   | FString n :: FUUID _ :: _ =>
       let s' := {| s_ph := s_ph s; s_thr := s_thr s; s_proto := s_proto s; s_name := n;
                    s_uuid := offline_uuid n |} in
-      if 0 <=? sc_threshold c then s_set s' SCompress else s_set s' (after_compress c s')
+      if compress_on (sc_threshold c) then s_set s' SCompress else s_set s' (after_compress c s')
   | _ => s_set s (SClosed scWrongPacket)
   end.
 
@@ -469,7 +476,7 @@ End Server.
 
 (* every frame either side has read so far was decoded under the threshold it was encoded with *)
 Definition seen_ok (l : list (Z * Z * Z)) : bool :=
-  forallb (fun e => match e with (_, enc, dec) => enc =? dec end) l.
+  forallb (fun e => match e with (_, enc, dec) => thr_eq enc dec end) l.
 
 (* ---------------------------------------------------------------- Part 2: play phase
    bot.Conn.WritePacket -> send queue -> writer goroutine -> socket -> server's ReadPacket, and
